@@ -79,10 +79,12 @@ CHECKS.update({
         undecided="nothing beyond the recorded findings F9-F11",
     ),
     "C13": dict(
-        text="Ownership structure that makes every del/gc/pickle history safe: exactly-once hand-over typestate in "
-        "TensorMethod.__call__, slots wrapped by ffi.gc = slots kernels fill with malloc'ed memory (K rule on every kernel), "
-        "lifetime anchoring in the struct's holder, who-may-free.",
-        technique="typestate / post-dominance / who-may-call checks over the Python AST + slot agreement on emitted kernel IR",
+        text="Ownership structure that makes every del/gc/pickle history safe: the ownership layer and TensorMethod.__call__ are "
+        "evaluated abstractly in a model of cffi (object graph: exactly the kernel's arrays get one free() wrapper each, everything the "
+        "structure points to is held by the holder registered under it; exactly-once hand-over on every path out of the kernel call), "
+        "slots kernels fill with malloc'ed memory (K rule on every kernel), forbidden-construct rules (eager release, finalize, __del__), "
+        "borrowed pointers, who-may-free.",
+        technique="abstract evaluation of the ownership layer over a cffi object-graph model + typestate on an event log + who-may-call + slot agreement on emitted kernel IR",
         design_ref="DESIGN.md section 3 C13",
         engine="S+K",
         undecided="all del/gc/pickle interleavings and CPython/cffi finaliser ordering (history quantifier)",
